@@ -89,9 +89,18 @@ def gen(rng, **kw):
             # rare evidence (one tiny fact) and a query that needs a second tiny fact as well: P(q, e) is below 1e-12,
             # P(e) is not, P(q | e) is about 1e-7
             a1, a2 = P["stmts"][idx[0]][2], P["stmts"][idx[1]][2]
-            P["evidence"] = [(a1, True)]
-            P["preds"]["tq"] = (0, 1 + max(l for a, l in P["preds"].values()))
-            P["stmts"].append(("rule", ("tq", ()), [("pos", a1), ("pos", a2)]))
+            lvl = 1 + max(l for a, l in P["preds"].values())
+            P["preds"]["tq"] = (0, lvl + 1)
+            others = [st[2] for i, st in enumerate(P["stmts"]) if st[0] == "pf" and i not in idx]
+            if others and rng.random() < 0.7:
+                # the evidence is a DERIVED atom (a conjunction node of the circuit), not a fact
+                P["preds"]["te"] = (0, lvl)
+                P["stmts"].append(("rule", ("te", ()), [("pos", a1), ("pos", rng.choice(others))]))
+                P["evidence"] = [(("te", ()), True)]
+                P["stmts"].append(("rule", ("tq", ()), [("pos", ("te", ())), ("pos", a2)]))
+            else:
+                P["evidence"] = [(a1, True)]
+                P["stmts"].append(("rule", ("tq", ()), [("pos", a1), ("pos", a2)]))
             P["queries"].append(("tq", ()))
     return P
 
